@@ -67,16 +67,22 @@ def _trace_leg(rep, tier, pid):
             items += r["items"]
             meta += r["meta"]
             for f in r["fails"]:
-                rep.violation(f, shadows.match(pid, f))
+                if pid != "C19":
+                    rep.violation(f, shadows.match(pid, f))
     verdicts, illegal, stats = wire.validate_traces(items)
     rep.add_tlc(stats)
     if illegal:
         raise wire.MachineryError("generator produced %d environments the specification calls illegal" % len(illegal))
     n_ok = 0
     for it, m, v in zip(items, meta, verdicts):
+        if v is None and pid == "C19":
+            continue
         if v is None:
             rep.violation({"check": "enc", "what": "recorded walk is not a behaviour of the specification",
                            "schema": m["schema"], "walk": it["walk"], "defs": it["env"]})
+        elif pid == "C19" and bool(v["dL"]) == bool(v["dB"]):
+            # both orders deviate in the same way (C01's business) or neither does
+            n_ok += 0 if v["dL"] else 1
         elif v["dL"] or v["dB"]:
             rep.violation({"check": "enc", "what": "trace rejected: recorded %s image differs from the specification "
                            "at offset %d (little %s / big %s)" % ("little-endian" if v["dL"] else "big-endian",
@@ -250,9 +256,11 @@ def py_random_leg(rep, checks, tier, groups):
     rep.cov["py_random_schemas"] = len(groups)
 
 
-def _both(pid, tier, py_checks, cpp_checks, assumptions, rule, layouts=False):
+def _both(pid, tier, py_checks, cpp_checks, assumptions, rule, layouts=False, extra_leg=None):
     rep = Report(pid, tier)
     rep.assumptions = assumptions
+    if extra_leg:
+        extra_leg(rep, tier, pid)
     if layouts:
         from . import randwire
         rgroups, rstats = randwire.raw_groups(tier, 89)
@@ -276,7 +284,9 @@ def c04(tier, replay):
 
 
 def c19(tier, replay):
-    return _both("C19", tier, ["mirror"], ["mirror"], ASSUME_CPP, RULE_CPP)
+    return _both("C19", tier, ["mirror"], ["mirror"], ASSUME_CPP + [
+        "recorded encodings of randomly drawn schemas and values (incl. NaN, infinities, -0.0) are validated by TLC in both "
+        "byte orders; here only traces in which exactly one order deviates are reported"], RULE_CPP, extra_leg=_trace_leg)
 
 
 def c06(tier, replay):
